@@ -76,7 +76,7 @@ def impl_addr_ipv4(ver, v):
 def impl_addr_ipv6(ver, v, c):
     a = _addr(ver, v)
     try:
-        return _oa(a.ipv6(ipv4_compatible=c))
+        return _oa(a.ipv6(ipv4_compatible=c) if c else a.ipv6())      # False is the documented default: left out, so the default is exercised
     finally:
         _same_addr(a, ver, v)
 
@@ -92,7 +92,7 @@ def impl_net_ipv4(ver, v, p):
 def impl_net_ipv6(ver, v, p, c):
     n = _net(ver, v, p)
     try:
-        return _on(n.ipv6(ipv4_compatible=c))
+        return _on(n.ipv6(ipv4_compatible=c) if c else n.ipv6())      # (default left out)
     finally:
         _same_net(n, ver, v, p)
 
